@@ -358,7 +358,15 @@ class HomeKitConnection:
         if self._start_reconnecting():
             # If we are running under a timeout, we still need to shield the
             # connector task so it continues to run if the timeout is hit.
-            await asyncio.shield(self._connector)
+            connector = self._connector
+            try:
+                await asyncio.shield(connector)
+            except asyncio.CancelledError:
+                if not connector.cancelled():
+                    raise
+                # The caller was not cancelled, the connector was stopped
+                # because the connection is being closed.
+                raise AccessoryDisconnectedError("Connection closed while waiting for it") from None
 
     async def _stop_connector(self) -> None:
         """
